@@ -27,14 +27,98 @@
     alone — on purpose: `dd/_copy.py` (line 507) creates a handle for a node it already holds a
     reference on and uses `_direct` to cancel the extra one.  It breaks the invariant
     "`_ref` = library references owned by the handle" for callers that use it otherwise.
+
+  * `knownExceptionLeaks`: exits THROUGH AN EXCEPTION RAISED INSIDE A CALLEE (or by a subscript / a type
+    test) on which the function still owns references.  The reader follows these exits since the
+    extension of 2026-09-28 (`raiseIn site line`, `site` = `callee#k`); every such exit of every followed
+    function must be balanced or be listed here with WHAT is still owned (`exitSummary`), so a new
+    call between a `ref` and its `deref` — or a new reference held across an old call — is not
+    covered by an old entry.  Read against the statement of C19 ("every temporary reference a wrapper
+    method takes is released on each path"): these ARE paths on which a reference is not released.
+    Three classes, by what can raise at the site in the CURRENT sources:
+      - `userError`: reachable from the public API with a wrong argument.  `cudd_zdd._c_compose`
+        (through `ZDD.let` with a dict whose FIRST value is a `Function` and a later one is not:
+        `g = dvars[var]` with `g: Function` raises `TypeError` in the loop that fills `vector`, after
+        earlier iterations did `cuddRef(g.node)`; nothing releases `vector`).  Reported as finding.
+      - `internal`: the site is guarded by a test just before it (`var in dvars` before `dvars[var]`,
+        `var` taken from `zdd.vars` before `zdd._index_of_var[var]` / `zdd.var(var)`), or
+        the callee raises only `AssertionError`s of internal invariants (`level < 0`,
+        `u is NULL`, `level > u_level`, a `cube` that is not a cube, `index` out of range): the
+        recursive ZDD operators `_forall` / `_exist` / `_disjoin` / `_conjoin` / `_compose` hold `p`
+        (and `q`, `conj`/`disj`) across nested calls declared `except? NULL` without `try … finally`;
+        `_compose_root` drops the memo `table` with the references `_compose` parked in it.
+        Same status as `reviewedDeadAssertions`: cannot fire unless the wrapper itself is wrong.
+      - `memoryOnly`: the site raises `MemoryError` only (`wrap` of a node checked non-NULL two lines
+        above; `table[t] = …` for a key that `t in table` already hashed).
+  * `knownArrayLeaks` now also lists exits through exceptions from callees: arrays of BORROWED node
+    pointers that are not freed (memory only; no node reference involved): `BDD._multi_compose`
+    (`self._index_of_var[var]`, `g = var_sub[var]` — the latter reachable: `BDD.let` with a mixed
+    dict), `BDD._swap` / `BDD._cube_from_bdds` (`self.var(name)` raises `ValueError` for an undeclared
+    name after `PyMem_Malloc`, before the `try … finally: PyMem_Free`), `count_nodes` (a list element
+    that is not a `Function`), `_c_compose` (first iteration: array only).
 -/
 import DD.CTableTypes
 namespace DD
 
 def reviewedUncovered : List (Backend × String × String) := []
 
-/-- (back end, function, the exception that ends the path) -/
-def knownArrayLeaks : List (Backend × String × String) := [(.cudd, "BDD._multi_compose", "ValueError")]
+/-- (back end, function, the exception that ends the path: the name of an explicit `raise`, or the
+site `callee#k` of an exception raised inside a callee) -/
+def knownArrayLeaks : List (Backend × String × String) := [
+  (.cudd, "BDD._multi_compose", "ValueError"),
+  (.cudd, "BDD._multi_compose", "getitem#0"),
+  (.cudd, "BDD._multi_compose", "getitem#1"),
+  (.cudd, "BDD._multi_compose", "typetest#1"),
+  (.cudd, "BDD._swap", "getitem#0"),
+  (.cudd, "BDD._swap", "self.var#0"),
+  (.cudd, "BDD._swap", "self.var#1"),
+  (.cudd, "BDD._cube_from_bdds", "self.var#0"),
+  (.cudd, "count_nodes", "typetest#1"),
+  (.cuddZdd, "_c_compose", "getitem#0"),
+  (.cuddZdd, "_c_compose", "getitem#1"),
+  (.cuddZdd, "_c_compose", "typetest#1"),
+  (.cuddZdd, "_c_compose", "typetest#2"),
+  (.cuddZdd, "_c_compose", "zdd.var#0")]
+
+/-- what can raise at the site, in the sources as reviewed -/
+inductive LeakReach
+  | userError     -- reachable from the public API with a wrong argument
+  | internal      -- only `AssertionError`s of internal invariants
+  | memoryOnly    -- only `MemoryError`
+deriving Repr, DecidableEq, Inhabited
+
+structure KnownLeak where
+  backend : Backend
+  fn : String
+  site : String                    -- `callee#k`: the k-th place of that label in the function
+  held : List (String × Int)       -- `exitSummary`: what the function still owns at this exit
+  reach : LeakReach
+deriving Repr, DecidableEq, Inhabited
+
+/-- exits through an exception raised inside a callee on which references are still owned
+(reviewed 2026-09-28; one entry per line: `harness/checks_cwrap.py` reads this list) -/
+def knownExceptionLeaks : List KnownLeak := [
+  ⟨.cudd, "BDD._load_dddmp", "wrap#0", [("Dddmp_cuddBddLoad", 1)], .memoryOnly⟩,
+  ⟨.cuddZdd, "_forall", "_forall#1", [("_forall", 1)], .internal⟩,
+  ⟨.cuddZdd, "_forall", "_conjoin#0", [("_forall", 1), ("_forall", 1)], .internal⟩,
+  ⟨.cuddZdd, "_forall", "_find_or_add#0", [("_forall", 1), ("_forall", 1), ("_conjoin", 1)], .internal⟩,
+  ⟨.cuddZdd, "_forall", "_find_or_add#1", [("_forall", 1), ("_forall", 1)], .internal⟩,
+  ⟨.cuddZdd, "_exist", "_exist#1", [("_exist", 1)], .internal⟩,
+  ⟨.cuddZdd, "_exist", "_disjoin#0", [("_exist", 1), ("_exist", 1)], .internal⟩,
+  ⟨.cuddZdd, "_exist", "_find_or_add#0", [("_exist", 1), ("_exist", 1), ("_disjoin", 1)], .internal⟩,
+  ⟨.cuddZdd, "_exist", "_find_or_add#1", [("_exist", 1), ("_exist", 1)], .internal⟩,
+  ⟨.cuddZdd, "_disjoin", "_disjoin#1", [("_disjoin", 1)], .internal⟩,
+  ⟨.cuddZdd, "_disjoin", "_find_or_add#0", [("_disjoin", 1), ("_disjoin", 1)], .internal⟩,
+  ⟨.cuddZdd, "_conjoin", "_conjoin#1", [("_conjoin", 1)], .internal⟩,
+  ⟨.cuddZdd, "_conjoin", "_find_or_add#0", [("_conjoin", 1), ("_conjoin", 1)], .internal⟩,
+  ⟨.cuddZdd, "_c_compose", "getitem#0", [("container array", 0), ("array not freed", 0)], .internal⟩,
+  ⟨.cuddZdd, "_c_compose", "getitem#1", [("container array", 0), ("array not freed", 0)], .internal⟩,
+  ⟨.cuddZdd, "_c_compose", "typetest#1", [("container array", 0), ("array not freed", 0)], .userError⟩,
+  ⟨.cuddZdd, "_c_compose", "typetest#2", [("container array", 0), ("array not freed", 0)], .internal⟩,
+  ⟨.cuddZdd, "_c_compose", "zdd.var#0", [("container array", 0), ("array not freed", 0)], .internal⟩,
+  ⟨.cuddZdd, "_compose_root", "_compose#0", [("container pyobj", 0)], .internal⟩,
+  ⟨.cuddZdd, "_compose", "_compose#2", [("_compose", 1)], .internal⟩,
+  ⟨.cuddZdd, "_compose", "setitem#0", [("cuddZddIte", 2)], .memoryOnly⟩]
 
 def reviewedDeadAssertions : List (Backend × String) :=
   [(.cuddZdd, "_c_compose"), (.cuddZdd, "_compose_root"), (.cuddZdd, "_compose")]
